@@ -23,7 +23,10 @@ use std::{
     path::{Path, PathBuf},
     sync::{Arc, Mutex},
 };
-use timestamps::{creation_timestamp_of_currentfile, infix_from_timestamp, latest_timestamp_file};
+use timestamps::{
+    creation_timestamp_of_currentfile, infix_for_direct_start, infix_from_timestamp,
+    latest_timestamp_file,
+};
 
 #[cfg(feature = "async")]
 const ASYNC_FLUSHER: &str = "flexi_logger-fs-async_flusher";
@@ -336,7 +339,10 @@ impl State {
                         the_current_infix: None,
                         infix_format: InfixFormat::Std,
                     },
-                    infix_from_timestamp(&ts, self.config.use_utc, &InfixFormat::Std),
+                    infix_for_direct_start(
+                        &self.config,
+                        &infix_from_timestamp(&ts, self.config.use_utc, &InfixFormat::Std),
+                    ),
                 )
             }
             Naming::Timestamps => (
@@ -374,7 +380,10 @@ impl State {
                 } else {
                     let fmt = InfixFormat::custom(ts_fmt);
                     let ts = latest_timestamp_file(&self.config, !self.config.append, &fmt);
-                    let infix = infix_from_timestamp(&ts, self.config.use_utc, &fmt);
+                    let infix = infix_for_direct_start(
+                        &self.config,
+                        &infix_from_timestamp(&ts, self.config.use_utc, &fmt),
+                    );
                     (
                         NamingState::Timestamps {
                             current_timestamp: ts,
